@@ -26,9 +26,14 @@ from fractions import Fraction
 import impl
 import geom
 import posgen
+import dfxpdoc7
 from geom import exact, Some
 from wire import Ok, Err, oracle_batch, r_result
 from pycaption import DFXPWriter, DFXPReader, WebVTTWriter, WebVTTReader
+try:
+    from pycaption.dfxp.base import DFXP_DEFAULT_REGION_ID
+except ImportError:                      # the constant moved: the default region is then recognised by its usual id
+    DFXP_DEFAULT_REGION_ID = "bottom"
 
 TABLES = ("GenGeom.v",)
 HN = ["left", "center", "right", "start", "end"]
@@ -516,8 +521,12 @@ def check_dfxp_case(acs, cfg, res, history=None):
     """returns an outcome tag"""
     rel, fit, w, h = cfg
     cs = build_with_history(acs, history)
-    r = impl.call(lambda: DFXPReader().read(DFXPWriter(relativize=rel, fit_to_screen=fit, video_width=w,
-                                                       video_height=h).write(cs)))
+    written = [None]
+
+    def write_read():
+        written[0] = DFXPWriter(relativize=rel, fit_to_screen=fit, video_width=w, video_height=h).write(cs)
+        return DFXPReader().read(written[0])
+    r = impl.call(write_read)
     res["evaluations"] += 1
     base = {"replay": "dfxp", "cfg": list(cfg), "input": acs}
     if history:
@@ -537,7 +546,10 @@ def check_dfxp_case(acs, cfg, res, history=None):
     ids = posgen.word_ids(acs)
     words = {v: k for k, v in ids.items()}
     # the tree model: region table, region attributes on div/p/span, nearest-ancestor resolution on read (1210)
-    tm = r_result(oracle_batch([(1210, [g, posgen.w_dset(acs, m.v, ids)])])[0])
+    dset = posgen.w_dset(acs, m.v, ids)
+    tm, wm = oracle_batch([(1210, [g, dset]), (1211, [g, dset])])
+    tm = r_result(tm)
+    doc_dis = check_written_document(written[0], wm, words, base, res)
     model_words = {}
     if isinstance(tm, Ok):
         for rl in tm.v:
@@ -611,7 +623,48 @@ def check_dfxp_case(acs, cfg, res, history=None):
     if bad:
         res["violations"].append(bad)
         return "known-shape" if bad.get("shape") else "viol"
+    if doc_dis:
+        res["disagreements"].append(doc_dis)
+        return "dis"
     return "ok"
+
+
+DOCS = {}
+
+
+def check_written_document(doc, wm, words, base, res):
+    """wave 7: the document as written against the model's document (request 1211 = write_doc_clean: region table, region
+    attributes on div / p / span, cleanup_regions).  Returns a disagreement record (the region a WORD sits in, read off the
+    document by lxml - own region attribute of the innermost element, else the nearest ancestor's - has other attributes
+    than in the model's document, or names no region) or None; whole-document differences that leave every word in the same
+    region (placement of redundant attributes, unreferenced regions, ids) are counted only."""
+    def count(k):
+        DOCS[k] = DOCS.get(k, 0) + 1
+    if doc is None or wm == [-1]:
+        count("not_compared(no document / model request malformed)")
+        return None
+    real = dfxpdoc7.parse_written(doc, list(words.values()))
+    if real is None:
+        count("not_compared(document is not well-formed XML: unbalanced style nodes)")
+        return None
+    mr, md, created = dfxpdoc7.model_doc(wm, words)
+    count("documents_compared")
+    if created > len(mr):
+        count("documents_in_which_cleanup_regions_removed_a_region(model)")
+    DOCS["regions_in_compared_documents"] = DOCS.get("regions_in_compared_documents", 0) + len(mr)
+    rw, mw = dfxpdoc7.word_regions(*real), dfxpdoc7.word_regions(mr, md)
+    for wd in mw:
+        s = dfxpdoc7.same_attrs(rw.get(wd), mw[wd])
+        if s == "tie":
+            count("word_regions_printed_on_the_other_side_of_a_rounding_tie")
+        elif s == "diff":
+            return dict(base, stream="dfxp-document", word=wd, impl=repr(rw.get(wd, "word not found"))[:300], model=repr(mw[wd])[:300])
+    count("words_whose_region_in_the_document_is_the_model's")
+    DOCS["words_whose_region_in_the_document_is_the_model's"] += len(mw) - 1
+    whole = dfxpdoc7.same_document(real, (mr, md), DFXP_DEFAULT_REGION_ID)
+    count("whole_document_identical_up_to_region_renaming" if whole in ("same", "tie")
+          else "whole_document_differs(information: %s)" % whole)
+    return None
 
 
 def stream_dfxp(ctx, res):
@@ -770,6 +823,7 @@ def run(ctx):
     stream_vtt(ctx, res, printed)
     stream_dfxp(ctx, res)
     stream_history(ctx, res, printed)
+    res["distribution"]["dfxp_written_document_vs_model(request 1211; lxml as an independent observer)"] = dict(DOCS)
     res["rule"] = ("settings: all 6x4 alignment pairs x padding/extent presence on a value grid + random layouts (percent, absolute "
                    "with video sizes, raw settings) x relativize x fit; WebVTT documents: captions with per-node layouts drawn from "
                    "a small pool (runs of equal layouts), verbatim settings documents; DFXP: layouts attached at every subset of "
@@ -786,8 +840,10 @@ def run(ctx):
                     "tree level: DFXP write then read gives every word of a caption set of words / breaks / non-nested spans its expected effective layout; nearest ancestor wins",
                     "raw cue settings are passed through verbatim by the writer in every configuration",
                     "effective-layout fallback node > caption > language; region table lookup total and faithful (no collision)",
-                    "region attributes printed and read back give the two-decimal layout with defaults start / after"],
-        "correspondence_only": ["the DFXP round trip through BeautifulSoup (region ids on div/p/span, region resolution on read)",
+                    "region attributes printed and read back give the two-decimal layout with defaults start / after",
+                    "region bookkeeping: layouts that need a region share one iff they are equal; table keys pairwise different; ids r0..r(n-1) without gaps",
+                    "cleanup_regions leaves the reader's result unchanged for every document; the written document's regions are exactly the referenced ones (no dangling reference, no orphan)"],
+        "correspondence_only": ["the DFXP round trip through BeautifulSoup (region resolution on read); the written document (region table after cleanup, region attribute of the element each word sits in) is compared with the model's document (request 1211) through lxml",
                                 "WebVTTReader keeping the raw cue settings of a timing line (regex)",
                                 "cue text assembly, timing lines"]}
     return res
